@@ -52,6 +52,23 @@ def replay_state(st):
                         bad.append(("C16.sphere-values", dict(what="half-plane", **w), a["upper"], float(ang), p))
             if np.max(np.abs(Z[k] - X[k])) > 1e-9 * max(1.0, s["r2"] ** 0.5):
                 bad.append(("C16.sphere-roundtrip", w, X[k].tolist(), Z[k].tolist(), p))
+        # other layouts of the same points (documented shape (..., ndim)): a single point as a 1-D vector and a stack
+        # of tables must convert exactly like the rows of the table
+        try:
+            m = len(X) - len(X) % 2
+            layouts = [("1-D point", X[0], Y[0]), ("1-D point", X[-1], Y[-1])]
+            if m >= 2:
+                layouts.append(("stack (2, m, d)", X[:m].reshape(2, m // 2, d), Y[:m].reshape(2, m // 2, d)))
+                layouts.append(("stack (m, 1, d)", X[:m].reshape(m, 1, d), Y[:m].reshape(m, 1, d)))
+            for lname, Xl, Yl in layouts:
+                Yg = np.asarray(dreye.cartesian_to_spherical(Xl.copy()), float)
+                if Yg.shape != Yl.shape or np.max(np.abs(Yg - Yl)) > 1e-12:
+                    bad.append(("C16.sphere-values", dict(what="layout", layout=lname, **where0), Yl.tolist(), Yg.tolist() if Yg.shape == Yl.shape else list(Yg.shape), None))
+                Zg = np.asarray(dreye.spherical_to_cartesian(Yl.copy()), float)
+                if Zg.shape != Xl.shape or np.max(np.abs(Zg - Xl)) > 1e-9 * max(1.0, np.max(np.abs(Xl))):
+                    bad.append(("C16.sphere-roundtrip", dict(layout=lname, **where0), Xl.tolist(), Zg.tolist() if Zg.shape == Xl.shape else list(Zg.shape), None))
+        except Exception as ex:
+            bad.append(("C16.no-error", dict(exc=type(ex).__name__, layout=True, **where0), None, repr(ex)[:200], None))
         return bad
     # barycentric
     n = st["n"]
@@ -64,6 +81,11 @@ def replay_state(st):
         D = np.linalg.norm(V[:, None, :] - V[None, :, :], axis=-1)
         if np.max(np.abs(D[~np.eye(n, dtype=bool)] - 1)) > 1e-9:
             bad.append(("C16.simplex", dict(what="unit-edges", **where0), 1.0, D.tolist(), None))
+        # the caller edits the matrix it was handed (plot units, centring): later conversions must not notice
+        from dreye.api.barycentric import barycentric_to_cartesian_transformer
+        T = barycentric_to_cartesian_transformer(n)
+        T *= 100.0
+        T -= 3.0
         pairs = st["pairs"]
         P = np.array([r["p"] for r in pairs], float)
         Q = np.array([r["q"] for r in pairs], float)
